@@ -188,7 +188,7 @@ impl<A: SemApi> SemWorld<A> {
         let futs = &self.futs;
         let snap = A::snapshot(h, &mut |addr| futs.find(addr).is_some());
         let resolve = |addr: usize| futs.find(addr).map(|id| (id, 0u8));
-        let orders = oracle::c01_membership(env, &snap, &resolve, &[QueueKind { name: "waiters", kind: 0 }]);
+        let orders = oracle::c01_membership(env, &snap, &resolve, &[QueueKind { name: "waiters", kinds: &[0] }]);
         if env.has_fatal() {
             return;
         }
